@@ -88,7 +88,7 @@ def template(*items, layout=None):
                 toks.append(mk_token(ex, i, "IntLit", v))
             elif it.startswith("@"):
                 toks.append(atom(ex, i, it[1:]))
-            elif it[0].islower():
+            elif it[0].islower() or it[0] == "_":
                 toks.append(TP.ident(ex, i, it))
             else:
                 toks.append(mk_token(ex, i, it))
@@ -121,6 +121,17 @@ def token_facts(ex, A):
     return out
 
 
+def ident_names(ex):
+    """vid -> spelling of every identifier token of the template"""
+    out = {}
+    ii = ex.P.types.variant_index("Token", "Ident")
+    for tw in ex.notes["toks"]:
+        f = tw.fields[0].fields.get(ii)
+        if f and getattr(f[0], "tag", None):
+            out[f[0].vid] = f[0].tag.split(":", 1)[1]
+    return out
+
+
 # ----------------------------------------------------------------------------- the reference parser
 class Reject(Exception):
     pass
@@ -144,9 +155,14 @@ class RefParser:
        member  = primary {'.' IDENT | '(' [exprs] ')' | '[' expr ']'}
        primary = IDENT | literal | '(' expr ')' | '[' [exprs] [','] ']' | '{' [inits] [','] '}'"""
 
-    def __init__(self, toks):
+    def __init__(self, toks, names=None):
         self.t = toks
         self.p = 0
+        self.names = names            # identifier payload -> spelling (None: payloads are spellings)
+
+    def spelling(self, i):
+        v = self.t[i][1]
+        return v if self.names is None else self.names.get(v)
 
     def peek(self):
         return self.t[self.p][0] if self.p < len(self.t) else None
@@ -157,9 +173,42 @@ class RefParser:
         self.p += 1
         return self.p - 1
 
+    PATTERN_OPS = {"EqualEqual": "Eq", "NotEqual": "Ne", "GreaterThan": "Gt", "GreaterEqual": "Ge", "LessThan": "Lt", "LessEqual": "Le"}
+
+    def match(self):
+        """'match' expr '{' {'case' pattern ':' expr [',']} '}' ; pattern = '_' | [cmp-op] cond_or
+        (a pattern that is the name of a type is outside the reference)"""
+        lo = self.take("Match")
+        scrut = self.expr()
+        self.take("LBrace")
+        cases, comma = [], True
+        while self.peek() != "RBrace":
+            if not comma:
+                raise Reject(f"expected a comma at token {self.p}")
+            self.take("Case")
+            if self.peek() == "Ident" and self.spelling(self.p) == "_":
+                i = self.take()
+                pat = N(k="any", lo=i, hi=i)
+            else:
+                plo = self.p
+                op = "Eq"
+                if self.peek() in self.PATTERN_OPS:
+                    op = self.PATTERN_OPS[self.t[self.take()][0]]
+                e = self.level(0)
+                pat = N(k="cmp", op=op, lo=plo, hi=e.hi, e=e)
+            self.take("Colon")
+            arm = self.expr()
+            cases.append(N(k="case", lo=pat.lo, hi=arm.hi, pat=pat, arm=arm))
+            comma = False
+            if self.peek() == "Comma":
+                self.take()
+                comma = True
+        hi = self.take("RBrace")
+        return N(k="match", lo=lo, hi=hi, s=scrut, cases=cases)
+
     def expr(self):
         if self.peek() == "Match":
-            raise Reject("match is outside the reference")
+            return self.match()
         c = self.level(0)
         if self.peek() != "Question":
             return c
@@ -267,9 +316,9 @@ class RefParser:
         raise Reject(f"unexpected {k} at token {self.p}, expecting a primary")
 
 
-def ref_parse(toks):
+def ref_parse(toks, names=None):
     """-> (tree, tokens consumed) or (None, reason)"""
-    p = RefParser(toks)
+    p = RefParser(toks, names)
     try:
         tree = p.expr()
     except Reject as r:
@@ -295,6 +344,8 @@ def show(n):
         return "[" + ", ".join(show(x) for x in n["items"]) + "]"
     if k == "map":
         return "{" + ", ".join(f"{show(a)}: {show(b)}" for a, b in n.inits) + "}"
+    if k == "match":
+        return "match " + show(n.s) + " {" + ", ".join(("_" if c.pat["k"] == "any" else c.pat.op + " " + show(c.pat.e)) + ": " + show(c.arm) for c in n.cases) + "}"
     if k == "member":
         s = show(n.prim)
         for e in n.elems:
@@ -357,6 +408,23 @@ def real_tree(ex, v, tok_of_payload):
             fs = fields_by_name(ex, v)
             op = b if "op" not in fs else variant(ex, fs["op"])
             return N(k="bin", op=AST_TO_OP.get(op, op), l=real_tree(ex, fs["lhs"], tok_of_payload), r=real_tree(ex, fs["rhs"], tok_of_payload))
+        if b == "Expr" and name == "Match":
+            fs = fields_by_name(ex, v)
+            cases = []
+            for cn in fs["cases"].items:
+                mc = cn.fields[1]
+                cf = dict(zip([fn for fn, _ in ex.P.types.structs["MatchCase"]], mc.fields))
+                pn = cf["pattern"].fields[1]
+                pname = variant(ex, pn)
+                if pname == "Any":
+                    pat = N(k="any")
+                elif pname == "Cmp":
+                    pf = fields_by_name(ex, pn)
+                    pat = N(k="cmp", op={"Neq": "Ne"}.get(variant(ex, pf["op"].fields[1]), variant(ex, pf["op"].fields[1])), e=real_tree(ex, pf["or"], tok_of_payload))
+                else:
+                    pat = N(k="type")
+                cases.append(N(k="case", pat=pat, arm=real_tree(ex, cf["expr"], tok_of_payload), spans=[span_of(cn)]))
+            return N(k="match", s=real_tree(ex, fs["condition"], tok_of_payload), cases=cases)
         if b == "Expr" and name == "Ternary":
             fs = fields_by_name(ex, v)
             return N(k="cond", c=real_tree(ex, fs["condition"], tok_of_payload), x=real_tree(ex, fs["true_clause"], tok_of_payload), y=real_tree(ex, fs["false_clause"], tok_of_payload))
@@ -443,6 +511,22 @@ def compare(got, want, faults, path="root", cols=None):
             compare(got[a], want[a], faults, f"{path}.{a}", cols=cols)
     elif k == "paren":
         compare(got.x, want.x, faults, path + ".x", cols=cols)
+    elif k == "match":
+        compare(got.s, want.s, faults, path + ".scrutinee", cols=cols)
+        if len(got.cases) != len(want.cases):
+            faults["shape"].append(f"{path}: {len(got.cases)} cases, source has {len(want.cases)}")
+        else:
+            for i, (g, w) in enumerate(zip(got.cases, want.cases)):
+                # a case is not an expression node and starts with its pattern, whose span the property
+                # excludes: only the arm and the expression inside the pattern are compared
+                if g.pat["k"] != w.pat["k"] or (w.pat["k"] == "cmp" and g.pat.op != w.pat.op):
+                    faults["shape"].append(f"{path}.case{i}: pattern {g.pat['k']} {g.pat.get('op')}, source has {w.pat['k']} {w.pat.get('op')}")
+                elif w.pat["k"] == "cmp":
+                    # the spans of patterns are not part of the property (the project does not consume them)
+                    sub = {"shape": [], "span": [], "argorder": []}
+                    compare(g.pat.e, w.pat.e, sub, f"{path}.case{i}.pattern", cols=cols)
+                    faults["shape"] += sub["shape"]
+                compare(g.arm, w.arm, faults, f"{path}.case{i}.arm", cols=cols)
     elif k == "list":
         if len(got["items"]) != len(want["items"]):
             faults["shape"].append(f"{path}: {len(got['items'])} elements, source has {len(want['items'])}")
@@ -509,6 +593,12 @@ def variable_idents(n, out):
     elif k == "cond":
         for a in "cxy":
             variable_idents(n[a], out)
+    elif k == "match":
+        variable_idents(n.s, out)
+        for c in n.cases:
+            if c.pat["k"] == "cmp":
+                variable_idents(c.pat.e, out)
+            variable_idents(c.arm, out)
     elif k == "list":
         for a in n["items"]:
             variable_idents(a, out)
@@ -529,7 +619,7 @@ def variable_idents(n, out):
 
 # ----------------------------------------------------------------------------- terms, failure, truthiness
 def fails_of(ex, term):
-    if term[0] in ("bool", "lit"):
+    if term[0] in ("bool", "lit", "null"):
         return z3.BoolVal(False)
     if term[0] == "Not":
         # `!e` is e for a failing e and a bool otherwise (the value operation itself is decided by
@@ -541,6 +631,8 @@ def fails_of(ex, term):
 def truthy_of(ex, term):
     if term[0] == "bool":
         return term[1]
+    if term[0] == "null":
+        return z3.BoolVal(False)
     if term[0] == "Not":
         return z3.And(z3.Not(fails_of(ex, term[1])), z3.Not(truthy_of(ex, term[1])))
     t = z3.Bool(f"truthy@{term}")
@@ -570,7 +662,9 @@ def term_of_value(ex, v):
             if i is not None:
                 return ("lit", i)
         if name == "Bool" and f and isinstance(f[0], VBool):
-            return ("bool", f[0].b)
+            return ("bool", f[0].b if not isinstance(f[0].b, bool) else z3.BoolVal(f[0].b))
+        if name == "Null":
+            return ("null",)
         if name == "List" and f and isinstance(f[0], VSeq) and isinstance(f[0].length, int):
             return ("list", tuple(term_of_value(ex, x) for x in f[0].items))
         if name == "Ident" and f:
@@ -641,10 +735,34 @@ def m_interp_run_raw(ex, callee, args, ret_ty, frame):
     return ret
 
 
+def m_string_eq_lit(ex, callee, args, ret_ty, frame):
+    """`ident == "_"`: identifiers of a template have known spellings"""
+    a, b = unref_all(ex, args[0]), unref_all(ex, args[1])
+    sa = a.tag.split(":", 1)[1] if isinstance(a, VOpaque) and (a.tag or "").startswith("name:") else None
+    sb = getattr(b, "s", None)
+    if sa is None or not isinstance(sb, str):
+        return models.NOT_HANDLED
+    return VBool(sa == sb)
+
+
+def unref_all(ex, v):
+    for _ in range(4):
+        if isinstance(v, VRef):
+            v = ex.read(v.root, v.path)
+    return v
+
+
+def m_get_type_none(ex, callee, args, ret_ty, frame):
+    """`bindings.get_type(name)` in a match pattern: the identifiers of the templates are not type
+    names (type patterns are outside the templates)"""
+    return models.mk_option(ex, norm_ty(ret_ty) if ret_ty else "Option")
+
+
 GRAMMAR_CFG = dict(TP.PARSE_CFG)
 GRAMMAR_CFG["loop_bound"] = 160
 GRAMMAR_CFG["models"] = [m for m in TP.PARSE_CFG["models"] if m[1] not in (TP.m_value_op, TP.m_location) and "is_truthy" not in m[0]] + [
     (r"^<dyn Tokenizer as Tokenizer>::location$", m_location),
+    (r"^<String as PartialEq<&?str>>::eq$", m_string_eq_lit), (r"^BindContext::(<.*>::)?get_type$", m_get_type_none),
     (r"^(CelValue::(or|and|lt|le|gt|ge|neq|in_|index|access)|<CelValue as (Add|Sub|Mul|Div|Rem|Not|Neg|CelValueDyn)>::(add|sub|mul|div|rem|not|neg|eq|access))$", m_fold_op),
     (r"is_truthy$", m_is_truthy),
     (r"^Interpreter::(<.*>::)?empty$", m_interp_empty), (r"^Interpreter::(<.*>::)?add_bindings$", m_interp_add_bindings), (r"^Interpreter::(<.*>::)?run_raw$", m_interp_run_raw),
@@ -716,6 +834,16 @@ def eval_tree(M, n):
         if c[0] != "bool":
             return c                      # a failing condition is the result
         return eval_tree(M, n.x if z3.is_true(c[1]) else n.y)
+    if k == "match":
+        sv = eval_tree(M, n.s)
+        for c in n.cases:
+            if c.pat["k"] == "any":
+                return eval_tree(M, c.arm)
+            r = (c.pat.op, sv, eval_tree(M, c.pat.e))
+            # a comparison yields a bool or fails; a failing comparison is not a match
+            if not M.fails(r) and M.truthy(r):
+                return eval_tree(M, c.arm)
+        return ("null",)
     if k == "list":
         return ("list", tuple(eval_tree(M, a) for a in n["items"]))
     if k == "map":
@@ -775,6 +903,11 @@ def run_code(M, points, const_term):
             when = p[1]
             if v[0] == "bool":
                 if M.A.ask(v[1]) == when:
+                    pc = labels[p[2]]
+            elif v[0] in ("Eq", "Ne", "Lt", "Le", "Gt", "Ge") and not M.fails(v):
+                # a relation yields a bool or a failure (decided for the value operations by the
+                # Kani harnesses of C04); its truth is the term's truthiness
+                if M.truthy(v) == when:
                     pc = labels[p[2]]
             elif M.fails(v):
                 if not when:
@@ -972,7 +1105,7 @@ def check_grammar(res, V):
 
     def ref(A):
         toks = token_facts(ex, A)
-        want, used = ref_parse(toks)
+        want, used = ref_parse(toks, ident_names(ex))
         out = dict(toks=toks, want=want, used=used)
         if want is None or parts is None:
             return out
@@ -1080,6 +1213,12 @@ TARGETS = [
     tgt("gram_call_chain", ["f", "LParen", "a", "RParen", "Dot", "g", "LParen", "b", "Comma", "c", "RParen"], "`f(a).g(b, c)`: calls chain left to right"),
     tgt("gram_lines", ["a", ("Add", "OrOr", "LessThan"), "b", ("Multiply", "Question"), "c", ("Colon", "Add"), "d", "LBracket", "e", "RBracket"],
         "`a + b * c + d[e]`, `a || b ? c : d[e]` ... with every token on its own line, each further left than the one before: spans are ordered by line first", layout=stairs),
+    tgt("gram_match", ["Match", "s", "LBrace", "Case", ("EqualEqual", "NotEqual", "GreaterThan", "GreaterEqual", "LessThan", "LessEqual"), "p", "Colon", "x", "Comma", "Case", "_", "Colon", "y", "RBrace"],
+        "`match s { case OP p: x, case _: y }` for the six pattern operators: the scrutinee is evaluated once, only the arm of the first matching case runs"),
+    tgt("gram_match_eq", ["Match", "s", "LBrace", "Case", "@p", "Colon", "x", "Comma", "Case", "q", ("Add", "OrOr"), "r", "Colon", "y", ("Comma", "RBrace"), "RBrace"],
+        "`match s { case p: x, case q op r: y, }`: bare patterns compare for equality, patterns are full `||` expressions, a trailing comma is allowed, null when no case matches"),
+    tgt("gram_match_nocomma", ["Match", "s", "Add", "t", "LBrace", "Case", "p", "Colon", "x", ("Case", "Comma"), ("Case", "RBrace"), "q", "Colon", "y", "RBrace"],
+        "`match s + t { case p: x case q: y }`: cases must be separated by a comma"),
     tgt("gram_paren3", ["LParen", "@a", ("OrOr", "LessThan", "Minus", "Mod"), "@b", "RParen", ("AndAnd", "In", "Add", "Multiply"), "c"], "`(a op1 b) op2 c`: parentheses on the left operand"),
     tgt("gram_paren3_all", ["LParen", "@a", tuple(REPS), "@b", "RParen", tuple(REPS), "c"], "`(a op1 b) op2 c`, 8 x 8 operators", tier="thorough"),
 ]
@@ -1087,5 +1226,5 @@ TARGETS = [
 # which property checks run which templates (every template decides all its obligations; this only
 # keeps each property's check to the templates that exercise its subject)
 for _t in TARGETS:
-    lazy = any(k in _t["name"] for k in ("atoms", "cond", "paren3", "chain4", "list", "map"))
+    lazy = any(k in _t["name"] for k in ("atoms", "cond", "paren3", "chain4", "list", "map", "match"))
     _t["props"] = ["C02", "C09", "C17", "C18", "C10"] + (["C05"] if lazy else []) + (["C01"] if _t["name"] in ("gram_atoms2", "gram_call", "gram_unary") else [])
